@@ -414,6 +414,12 @@ fn check_stream(case: &StreamCase, ctx: &mut CaseCtx<'_>) -> Result<(), String> 
     if st.bytes.len() >= 60_000 {
         ctx.label("scale:big_frame");
     }
+    if case.a.io.write_limit >= 1000 || case.b.io.write_limit >= 1000 {
+        ctx.label("scale:socket_takes_less_than_offered");
+    }
+    if cmds.iter().filter(|c| c.len() == 2 && c[1] == b"mid").count() >= 60 {
+        ctx.label("scale:many_medium_replies");
+    }
 
     // Streams containing a command that trips an open crash finding: the panic ends the
     // connection, nothing after it can be checked. Excluded (counted) while the finding is
@@ -854,15 +860,22 @@ fn stream_case(with_triggers: bool) -> impl Strategy<Value = StreamCase> {
         .prop_map(|(cmds, shards, a, b)| StreamCase { cmds, shards, a, b });
     // scale class (about 1 case in 600): deep pipelines, long MULTI bodies, large frames
     let deep_run = || {
-        (gen::deep_seg(), gen::deep_cfg(), prop_oneof![4 => Just(false), 1 => Just(true)]).prop_map(|(seg, cfg, pending)| RunSpec {
-            seg,
-            cfg,
-            io: Io { pending, write_limit: 0 },
-        })
+        (
+            gen::deep_seg(),
+            gen::deep_cfg(),
+            prop_oneof![4 => Just(false), 1 => Just(true)],
+            // a socket that takes fewer bytes than one batch of replies offers (never 1 or 7 here: cost)
+            prop_oneof![3 => Just(0u32), 1 => Just(1_000), 1 => Just(4_096), 1 => Just(16_384), 1 => Just(65_536)],
+        )
+            .prop_map(|(seg, cfg, pending, write_limit)| RunSpec {
+                seg,
+                cfg,
+                io: Io { pending, write_limit },
+            })
     };
     let deep = (gen::deep_command_list(), prop_oneof![3 => Just(1u8), 1 => Just(3u8)], deep_run(), deep_run())
         .prop_map(|(cmds, shards, a, b)| StreamCase { cmds, shards, a, b });
-    prop_oneof![600 => ordinary, 1 => deep]
+    prop_oneof![400 => ordinary, 1 => deep]
 }
 
 fn bad_case() -> impl Strategy<Value = BadCase> {
